@@ -77,7 +77,7 @@ def nest(Qo, Qi, q, construct):
     o = P.Table("ot")
     if construct == "top":
         return q
-    if type(q).__name__ == "_SetOperation" and construct in ("setop-base", "setop-operand", "create-as", "subquery-select", "subquery-join"):
+    if type(q).__name__ == "_SetOperation" and construct in ("setop-base", "setop-operand", "create-as", "subquery-select", "subquery-join", "function-arg", "function-arg-orderby", "cmp-operand", "case-result"):
         return None  # a set operation is nested as a FROM / IN / CTE subquery only
     if construct == "subquery-from":
         return Qo.from_(q.as_("sq")).select("a")
@@ -88,6 +88,16 @@ def nest(Qo, Qi, q, construct):
         return Qo.from_(o).select(o.k).where(o.k.isin(q))
     if construct == "subquery-select":
         return Qo.from_(o).select(o.k, q.as_("ss"))
+    if construct == "function-arg":
+        from pypika_tortoise import functions as fn
+        return Qo.from_(o).select(o.k, fn.Coalesce(q, o.j))
+    if construct == "function-arg-orderby":
+        from pypika_tortoise import functions as fn
+        return Qo.from_(o).select(o.k).orderby(fn.Coalesce(q, o.j))
+    if construct == "cmp-operand":
+        return Qo.from_(o).select(o.k).where(o.k == q)
+    if construct == "case-result":
+        return Qo.from_(o).select(P.Case().when(o.k == o.j, q).else_(o.j))
     if construct == "cte":
         return Qo.with_(q, "cq").from_(P.AliasedQuery("cq")).select("a")
     n = select_arity(q)
